@@ -263,10 +263,53 @@ def attr_selectors(tier):
     return out
 
 
+def deep_trees(tier):
+    """Layer D: trees deep enough for chains of four compounds (the other layers stop at three elements in quick): every chain of 4 and 5 nested
+    elements over {a,b}, and chains whose levels carry an extra sibling before / after the spine."""
+    out = []
+
+    def chain(labels, sib=None):
+        node = ()
+        for depth, lab in enumerate(reversed(labels)):
+            kids = node
+            if sib == 'before' and node:
+                kids = (('e', 'b', (), ()),) + node
+            elif sib == 'after' and node:
+                kids = node + (('e', 'a', (), ()),)
+            elif sib == 'both' and node:
+                kids = (('e', 'a', (), ()),) + node + (('e', 'b', (), ()),)
+            node = (('e', lab, (), kids),)
+        return node
+    for n_ in (4, 5):
+        for labels in itertools.product('ab', repeat=n_):
+            out.append(('chain', chain(labels)))
+            if n_ == 4:
+                for sib in ('before', 'after', 'both'):
+                    out.append(('chain+' + sib, chain(labels, sib)))
+    return out
+
+
+def deep_selectors(tier):
+    out = []
+    pats = [('a', 'b', 'a', 'b'), ('*', '*', '*', '*'), ('b', 'a', 'a', 'b'), ('a', 'a', 'b', 'b')]
+    if tier != 'quick':
+        pats += [tuple(x) for x in itertools.product('ab', repeat=4) if tuple(x) not in pats]
+    for k1, k2, k3 in itertools.product(S.COMBS, repeat=3):
+        for L in pats:
+            c = [S.cp(S.T(x)) for x in L]
+            out.append((S.cx(c[0], k1, c[1], k2, c[2], k3, c[3]),))
+            rel = ('has', ((k1, S.cx(c[1], k2, c[2], k3, c[3])),))
+            out.append((S.cx(S.cp(S.T(L[0]), rel)),))
+            out.append((S.cx(S.cp(None, ('fn', 'not', (S.cx(S.cp(None, rel)),)))),))
+            out.append((S.cx(S.cp(None, ('fn', 'is', (S.cx(c[0], k1, c[1], k2, c[2]),))), k3, c[3]),))
+    return out
+
+
 LAYERS = {
     'S': (structure_trees, structure_selectors, ('api-html', 'api-xml', 'api-detached')),
     'F': (functional_trees, functional_selectors, ('api-html', 'api-xml', 'api-detached')),
     'A': (attr_trees, attr_selectors, ('api-html', 'api-xml', 'api-xhtml', 'api-html5')),
+    'D': (deep_trees, deep_selectors, ('api-html', 'api-detached')),
     'PS': (lambda tier: [t for t in structure_trees('quick') if '@' not in t[0]][::1 if tier != 'quick' else 2],
            lambda tier: structure_selectors('quick')[::7 if tier == 'quick' else 2],
            ('html.parser', 'lxml', 'html5lib', 'xml')),
@@ -277,7 +320,7 @@ LAYERS = {
 
 def shards(tier, seed):
     out = []
-    per = {'S': 64, 'F': 32, 'A': 8, 'PS': 16, 'PA': 8, 'N': 8} if tier == 'quick' else {'S': 256, 'F': 128, 'A': 16, 'PS': 48, 'PA': 16, 'N': 16}
+    per = {'S': 64, 'F': 32, 'A': 8, 'PS': 16, 'PA': 8, 'N': 8, 'D': 8} if tier == 'quick' else {'S': 256, 'F': 128, 'A': 16, 'PS': 48, 'PA': 16, 'N': 16, 'D': 16}
     for layer, n in per.items():
         for i in range(n):
             out.append((layer, tier, i, n))
